@@ -120,6 +120,66 @@ func libToLib(rng *rand.Rand, call, pw string, how string) rec.Event {
 	return ev
 }
 
+// registryDials: two dials through the transport registry (transport.DialURLContext) at the same time, both against servers
+// that say nothing; the first has a long deadline, the second a short one and must return by it.
+func registryDials(rng *rand.Rand) rec.Event {
+	ev := rec.Event{"op": "Dial", "behaviour": "silent (while another dial through the registry waits for its 5 s deadline)", "how": "transport.DialURLContext",
+		"deadlineMs": 400, "returned": false, "elapsedMs": 0, "gotConn": false, "streamOK": true}
+	silent, err := net.Listen("tcp", "127.0.0.1:0")
+	if err != nil {
+		ev["err"] = err.Error()
+		return ev
+	}
+	defer silent.Close()
+	var conns []net.Conn
+	var cmu sync.Mutex
+	go func() {
+		for {
+			c, err := silent.Accept()
+			if err != nil {
+				return
+			}
+			cmu.Lock()
+			conns = append(conns, c)
+			cmu.Unlock()
+		}
+	}()
+	defer func() {
+		cmu.Lock()
+		for _, c := range conns {
+			c.Close()
+		}
+		cmu.Unlock()
+	}()
+	u, _ := transport.ParseURL(fmt.Sprintf("telnet://LA5NTA:pw@%s/wl2k", silent.Addr().String()))
+	ctx1, cancel1 := context.WithTimeout(context.Background(), 5*time.Second)
+	defer cancel1()
+	go func() {
+		if c, err := transport.DialURLContext(ctx1, u); err == nil {
+			c.Close()
+		}
+	}()
+	time.Sleep(150 * time.Millisecond) // the first dial is waiting for its prompt
+	ctx2, cancel2 := context.WithTimeout(context.Background(), 400*time.Millisecond)
+	defer cancel2()
+	done := make(chan struct{})
+	start := time.Now()
+	go func() {
+		if c, err := transport.DialURLContext(ctx2, u); err == nil {
+			c.Close()
+		}
+		close(done)
+	}()
+	select {
+	case <-done:
+		ev["returned"] = true
+	case <-time.After(4400 * time.Millisecond):
+	}
+	ev["elapsedMs"] = int(time.Since(start) / time.Millisecond)
+	cancel1()
+	return ev
+}
+
 // sharedDialer: two dials through one Dialer value; a dial_timeout parameter of the first URL is that dial's business only.
 func sharedDialer(rng *rand.Rand) rec.Event {
 	ev := rec.Event{"op": "Dial", "behaviour": "silent (after a dial with dial_timeout=8s through the same Dialer)", "how": "Dialer.DialURL", "deadlineMs": 700,
@@ -473,6 +533,19 @@ func dialAgainst(rng *rand.Rand, behaviour string, deadline time.Duration, how s
 			readLine()
 			c.Write(append([]byte("Password :\r"), payload...))
 			<-stop
+		case "short-lines-first", "short-line-silent":
+			// lines shorter than any prompt, blank lines, a bare prompt character - then the login, or nothing
+			c.Write([]byte("\r\nHi\r\r>\rok\r \r"))
+			if behaviour == "short-line-silent" {
+				<-stop
+				return
+			}
+			c.Write([]byte("Callsign :\r"))
+			readLine()
+			c.Write([]byte("Pw\rPassword :\r"))
+			readLine()
+			c.Write(payload)
+			<-stop
 		case "motd-first":
 			c.Write([]byte("Welcome to the node\rType your\rCallsign :\r"))
 			readLine()
@@ -491,6 +564,11 @@ func dialAgainst(rng *rand.Rand, behaviour string, deadline time.Duration, how s
 	go func() {
 		var c net.Conn
 		var err error
+		defer func() {
+			if p := recover(); p != nil { // neither a connection nor an error
+				ch <- res{nil, fmt.Errorf("panic: %v", p)}
+			}
+		}()
 		switch how {
 		case "DialTimeout":
 			c, err = telnet.DialTimeout(ln.Addr().String(), "LA5NTA", password, deadline)
@@ -521,6 +599,9 @@ func dialAgainst(rng *rand.Rand, behaviour string, deadline time.Duration, how s
 		ev["elapsedMs"] = int(time.Since(start) / time.Millisecond)
 		if r.err != nil {
 			ev["err"] = r.err.Error()
+			if strings.HasPrefix(ev["err"].(string), "panic: ") {
+				ev["returned"], ev["panic"] = false, ev["err"]
+			}
 		}
 		if r.c != nil && r.err == nil {
 			ev["gotConn"] = true
@@ -609,14 +690,15 @@ func Main(args []string) int {
 	emit(func(r *rand.Rand) rec.Event { return twoLogins(r) })
 	emit(func(r *rand.Rand) rec.Event { return twoLogins(r) })
 	emit(func(r *rand.Rand) rec.Event { return sharedDialer(r) })
+	emit(func(r *rand.Rand) rec.Event { return registryDials(r) })
 	emit(func(r *rand.Rand) rec.Event { return writeThenClose(r) })
-	behaviours := []string{"trickle-banner", "trickle-callsign-prompt", "silent", "partial-prompt", "garbage", "close-early", "stall-after-callsign", "normal", "split-prompts", "coalesced-payload", "motd-first"}
+	behaviours := []string{"trickle-banner", "trickle-callsign-prompt", "silent", "partial-prompt", "garbage", "close-early", "stall-after-callsign", "normal", "split-prompts", "coalesced-payload", "motd-first", "short-lines-first", "short-line-silent"}
 	dhows := []string{"DialContext", "DialTimeout", "DialURLContext", "dial_timeout"}
 	for bi, b := range behaviours {
 		for hi, how := range dhows {
 			b, how := b, how
 			d := time.Duration(150+50*((bi+hi)%6)) * time.Millisecond
-			if b == "normal" || b == "split-prompts" || b == "coalesced-payload" || b == "motd-first" {
+			if b == "normal" || b == "split-prompts" || b == "coalesced-payload" || b == "motd-first" || b == "short-lines-first" {
 				d = 1500 * time.Millisecond
 			}
 			emit(func(r *rand.Rand) rec.Event { return dialAgainst(r, b, d, how) })
